@@ -1,14 +1,79 @@
 """C20 - Matrix inverse / determinant as exact algebraic identities (include/asl/Matrix4.h, Matrix3.h)"""
 import os, time
 from vf import vcgen, core, replay
-from vf.core import Undecided
+from vf.core import Undecided, Unit, Cut
 
 UNITS = []
 LEVEL = 'proof'
-EXPLANATION = ('Expression text of inverse() and det() is parsed on every run into polynomials over the reals; each identity is an SMT query that must be unsat on z3 4.8, z3 5.1 and cvc5.')
+EXPLANATION = ('Expression text of inverse() and det() is parsed on every run into polynomials over the reals; each identity is an SMT query that must be unsat on z3 4.8, z3 5.1 and cvc5. '
+               'solve()/solve_(): both bodies cut and run together in CBMC on fixed shapes (bounded): which storage blocks are written, every element access in range, shape of the result.')
 ASSUMPTIONS = ['machine floating point treated as real arithmetic (the property asks for exact algebraic identities)',
-               'solve(), least squares, floating-point residual bounds, quaternion / axis-angle / Euler conversions are NOT decided (sqrt/atan2/sin/cos and pivoting loops over reals are outside this generator)']
-NOT_DECIDED = ['solve', 'least squares', 'floating residuals', 'rotation conversions']
+               'that the x returned by solve() satisfies A x = b (exactly or within a floating-point bound), least squares optimality, quaternion / axis-angle / Euler conversions are NOT decided (sqrt/atan2/sin/cos and elimination over reals with symbolic pivots are outside this generator); of solve() only the frame (caller\'s A and b untouched, result in its own block, accesses in range) is decided, on the shapes listed, bounded']
+NOT_DECIDED = ['solve: A x = b for the values', 'least squares', 'floating residuals', 'rotation conversions']
+
+# ---- solve(A, b) / solve_(A, b): which storage blocks the elimination writes to.  A x = b is a statement about the A and b the caller passed: the caller's blocks
+# (reference counted, possibly shared with other handles) must come back untouched, the answer in a block of its own.  Both bodies are cut and run together, so it
+# does not matter WHICH of the two makes the private copies.
+MX = 'include/asl/Matrix.h'
+_mx_rules = [(r'Matrix_<T>', 'M', None), (r'(\w+)\.rows\(\)', r'\1.rows', None), (r'(\w+)\.cols\(\)', r'\1.cols', None),
+             (r'(\w+)\.transposed\((\w+)\)', r'TRANSPOSED(\1, \2)', None), (r'(\w+)\.clone\(\)', r'CLONE(\1)', None), (r'(\w+)\.copy\((\w+)\)', r'COPY(\1, \2)', None),
+             (r'\bM (\w+)\(([^;=]*)\);', r'M \1 = NEWM(\2);', None), (r'Array<int> (\w+)\((\w+)\);', r'int* \1 = vf_ints(\2);', None),
+             (r'(?m)^(\s*)(\w+)\(([^;]*?)\)\s*(\+=|=)(?!=)\s*([^;]*);', r'\1{ WR(\2, \3); vf_sink = \5; }', None),
+             (r'\b(A|b|x|A_|b_|A2|b2)\(', r'RD(\1, ', None)]
+solve_frame = Unit(
+    'Matrix_solve_frame', 'C20',
+    cuts=[Cut('solve', MX, r'^Matrix_<T> solve\(const Matrix_<T>& A, const Matrix_<T>& b\)\s*$', rules=_mx_rules),
+          Cut('solve_', MX, r'^Matrix_<T> solve_\(Matrix_<T>& A_, Matrix_<T>& b_\)\s*$', rules=_mx_rules + [(r'return solve_\(', 'return solve_again(', None)]),
+          Cut('solve_again', MX, r'^Matrix_<T> solve_\(Matrix_<T>& A_, Matrix_<T>& b_\)\s*$', rules=_mx_rules + [(r'return solve_\(', 'return solve_deeper(', None)])],
+    text=r'''
+#include "vf_base.h"
+#include <math.h>
+typedef double T;
+typedef struct { int blk, rows, cols; } M;      /* a Matrix_ handle: which storage block it refers to, and its shape */
+#define NBLK 24
+int g_nblk, g_wr[NBLK], g_init[NBLK];
+double nondet_double(void); double vf_sink;
+static M NEWM(int r, int c) { __CPROVER_assert(r >= 0 && c >= 0, "Matrix(r, c): sizes >= 0"); __CPROVER_assert(g_nblk < NBLK, "harness block budget"); M m = { g_nblk++, r, c }; return m; }
+static M CLONE(M a) { M m = NEWM(a.rows, a.cols); g_init[m.blk] = 1; return m; }                    /* clone(): a block of its own with the same elements */
+static M TRANSPOSED(M a, M x) { __CPROVER_assert(a.rows == x.rows, "A^T * X: row counts agree"); M m = NEWM(a.cols, x.cols); g_init[m.blk] = 1; return m; }   /* A.transposed(X) = A^T X, a new matrix */
+static void vf_wr(M m, int i, int j) { __CPROVER_assert(0 <= i && i < m.rows && 0 <= j && j < m.cols, "element written is inside the matrix"); g_wr[m.blk] = 1; }
+static double vf_rd(M m, int i, int j) { __CPROVER_assert(0 <= i && i < m.rows && 0 <= j && j < m.cols, "element read is inside the matrix"); return nondet_double(); }
+#define WR(m, i, j) vf_wr(m, i, j)
+#define RD(m, i, j) vf_rd(m, i, j)
+static void COPY(M dst, M src) { __CPROVER_assert(dst.rows == src.rows && dst.cols == src.cols, "copy(): same shape"); g_wr[dst.blk] = 1; }
+#define swap(a, b) { int vf_t = (a); (a) = (b); (b) = vf_t; }
+static int* vf_ints(int n) { __CPROVER_assert(n >= 0, "Array<int>(n): n >= 0"); int* p = (int*)malloc(sizeof(int) * (size_t)n); __CPROVER_assume(p != NULL); return p; }   /* Array<int>(n): exactly n ints */
+static M solve_(M A_, M b_);
+static M solve(M A, M b) @@solve@@
+/* solve_ calls itself once for a non-square system (on the square normal equations): two copies of the same cut text, a third level must be unreachable */
+static M solve_deeper(M A_, M b_) { __CPROVER_assert(0, "solve_ recurses at most once (the normal equations are square)"); return A_; }
+static M solve_again(M A_, M b_) @@solve_again@@
+static M solve_(M A_, M b_) @@solve_@@
+int nondet_int(void);
+void vf_harness(void) {
+  int ra = RA, ca = CA, cb = CB;      /* the shape is fixed per variant (loops then unroll exactly); element values, and with them every pivot choice, are arbitrary */
+  M A = { 0, ra, ca }, b = { 1, ra, cb }; g_nblk = 2; g_init[0] = g_init[1] = 1;
+  M x = solve(A, b);
+  __CPROVER_assert(!g_wr[0], "solve(A, b) leaves the caller's A as it was (A x = b is about that A)");
+  __CPROVER_assert(!g_wr[1], "solve(A, b) leaves the caller's b as it was");
+  __CPROVER_assert(x.blk >= 2 && x.rows == ca && x.cols == cb, "the answer is a matrix of its own, one row per unknown and one column per right-hand side");
+  __CPROVER_assert(g_wr[x.blk], "and it was filled in");
+  VF_CANARY();
+}
+''',
+    entry=None, unwind=7, floor=10, expect=['assertion'], kind='bounded', timeout=600,
+    planted=[('solve', r'M A2 = CLONE\(A\);', 'M A2 = A;', r'^([2-5])x\1_rhs1$')],   # only square systems (2x2 up: a 1x1 system eliminates nothing) with one right-hand side take that path without another copy
+    replay=lambda r, o, work: {'concretisation': 'shape of the failing variant; element values fixed (values are not part of the counterexample: the unit tracks blocks)',
+                               'native': replay.run_native('C20/driver.cpp', ['solve'] + __import__('re').findall(r'\d+', r.variant), work)},
+    variants=dict(('%dx%d_rhs%d' % (r, c, k), ['-DRA=%d' % r, '-DCA=%d' % c, '-DCB=%d' % k]) for (r, c) in ((1, 1), (2, 2), (3, 3), (4, 4), (5, 5), (2, 1), (3, 2), (4, 2), (5, 3)) for k in (1, 2)),
+    bound='square systems 1x1..5x5 and over-determined 2x1, 3x2, 4x2, 5x3, each with 1 and 2 right-hand sides; element values (so every pivot choice) arbitrary',
+    desc='solve() and solve_() run together (both bodies cut): the elimination, the row permutation and the back substitution read and write only inside the matrices, never write the '
+         "caller's A or b block (whichever of the two functions makes the private copies), and return x in a block of its own with the right shape",
+    functions=['solve(const Matrix_<T>&, const Matrix_<T>&)', 'solve_(Matrix_<T>&, Matrix_<T>&)'],
+    trusted=['Matrix_::clone / transposed / copy / operator() abstracted to block events (clone and transposed give a new block, copy and assignment through operator() write the block of the handle)',
+             'element values are not tracked: that the x written solves the system is NOT decided here'],
+)
+UNITS += [solve_frame]
 
 
 def _frac(s):
